@@ -578,6 +578,8 @@ def compare_case(ctx, ci, c, a, b, stats):
             n = len(c["t"]) - c["k"]
             if sv.get("lsq") or len(B) != n:      # allow_lsq solves the normal equations even for a square system
                 B = [[sum(B[r][i] * B[r][j] for r in range(len(B))) for j in range(n)] for i in range(n)]
+            else:
+                B = row_equilibrated(B)
             cnd = cond_inf(B)
             # beyond cond ~ 1e12 the system is singular to working precision (cond * epsilon > 1e-4): both sides return
             # rounding noise and the VALUES of this spline are not compared at all (outcome classes and shapes still are)
